@@ -59,8 +59,8 @@ func (c01) Gen(r *sim.Rand, c *sim.Case, tier string) {
 	}
 	g.Fam |= world.FBody
 	if !Wild {
-		g.HFOncePerKind = true  // C11 finding hf-duplicate-reference
-		g.RectTablesOnly = true // C09 findings: structural edits on ragged tables panic
+		g.HFOncePerKind = true   // C11 finding hf-duplicate-reference
+		g.RectTablesOnly = true  // C09 findings: structural edits on ragged tables panic
 		g.WellFormedMath = false // the finding math-raw-innerxml is fixed: arbitrary formula text is part of the search
 	}
 	n := r.Range(3, 40)
